@@ -82,6 +82,30 @@ def shard(ctx):
                 rec.violation({'kind': 'variable_first_seen_in_structure_of_failed_condition_is_dangling'},
                               {'program': text, 'query': q, 'expected': '[1,a,1]', 'observed': arith.show_obs(o)[:200],
                                'jobs': [{'op': 'load', 'module': 'user', 'text': text}, {'op': 'run', 'goal': q + ' .', 'limit': 2, 'pred': 'runr'}]})
+    if ctx.shard == 3:
+        # fixed probe of known finding K51
+        text = 'c07_k51q(a).\nc07_k51q(b).\nc07_k51(1) :- ( ( c07_k51q(X), !, X = b ) -> true ; fail ).\nc07_k51(2).\n'
+        if arith.load_clauses(rec, w, text):
+            q = 'findall(X, c07_k51(X), R)'
+            o = arith.run_goal(w, q, var='R')
+            rec.case('with-cut', ('k51-probe',))
+            if o != ('val', mklist([mkint(2)])):
+                rec.violation({'kind': 'cut_in_if_then_else_condition_is_not_local'},
+                              {'program': text, 'query': q, 'expected': '[2]', 'observed': arith.show_obs(o)[:200],
+                               'jobs': [{'op': 'load', 'module': 'user', 'text': text}, {'op': 'run', 'goal': q + ' .', 'limit': 2, 'pred': 'runr'}]})
+    if ctx.shard == 4:
+        # fixed probe of known finding K52
+        text = 'c07_k52p(a, 2).\nc07_k52(1) :- \\+ ( G = a, !, \\+ c07_k52p(b, G) ).\nc07_k52(2).\n'
+        if arith.load_clauses(rec, w, text):
+            q = 'findall(X, c07_k52(X), R)'
+            o = arith.run_goal(w, q, var='R')
+            rec.case('with-negation', ('k52-probe',))
+            if o != ('val', mklist([mkint(2)])):
+                rec.violation({'kind': 'negation_after_cut_inside_negation_wrong'},
+                              {'program': text, 'query': q, 'expected': '[2]', 'observed': arith.show_obs(o)[:200],
+                               'jobs': [{'op': 'load', 'module': 'user', 'text': text}, {'op': 'run', 'goal': q + ' .', 'limit': 2, 'pred': 'runr'}]})
+    if ctx.shard == 5:
+        local_cut_set(rec, w)
     for i in range(ctx.params['n']):
         prog, sigs = progen.rprogram(rng, cuts=True, lib=True)
         prefix = 'c07_%d_%d_' % (ctx.shard, i)
@@ -126,3 +150,50 @@ def shard(ctx):
             rec.violation(sig, {'program': text, 'query': q, 'expected': show(want)[:600], 'observed': arith.show_obs(o)[:600],
                                 'jobs': [{'op': 'raw', 'query': setup_q}, {'op': 'load', 'module': 'user', 'text': text},
                                          {'op': 'run', 'goal': q + ' .', 'limit': 2, 'pred': 'runr'}]})
+
+
+LOCAL_CUT_PROGRAM = """
+c07_lq(a). c07_lq(b).
+c07_l1(1) :- \\+ ( c07_lq(_), !, fail ).
+c07_l1(2).
+c07_l2(1) :- \\+ ( c07_lq(X), !, X = a ).
+c07_l2(2).
+c07_l3(1) :- \\+ ( c07_lq(X), !, X = a ), c07_lq(_), !.
+c07_l3(2).
+c07_l4(1) :- c07_lq(_), \\+ ( c07_lq(X), !, X = a ).
+c07_l4(2).
+c07_l5(1) :- \\+ ( c07_lq(_), !, fail ), c07_lq(Y), !, Y = z.
+c07_l5(2).
+c07_l6(1) :- \\+ ( c07_lq(X), !, X = b ), c07_lq(Y), !, Y = z.
+c07_l6(2).
+c07_l7(1) :- \\+ ( \\+ fail, !, fail ).
+c07_l7(2).
+c07_l8(X) :- c07_lq(X), \\+ ( \\+ c07_lq(z), !, fail ).
+c07_l8(c).
+c07_l9(X) :- c07_lq(X), \\+ \\+ ( c07_lq(_), ! ).
+c07_l9(c).
+c07_l10(X) :- ( c07_lq(X), X == b -> true ; X = none ).
+c07_l10(c).
+c07_l11(X) :- once(( c07_lq(X), X \\== a )).
+c07_l11(c).
+c07_l12(X) :- c07_lq(X), call(( c07_lq(_), ! )).
+c07_l12(c).
+"""
+LOCAL_CUT_EXPECTED = {'c07_l1': '[1,2]', 'c07_l2': '[2]', 'c07_l3': '[2]', 'c07_l4': '[2]', 'c07_l5': '[]', 'c07_l6': '[]', 'c07_l7': '[1,2]',
+                      'c07_l8': '[a,b,c]', 'c07_l9': '[a,b,c]', 'c07_l10': '[b,c]', 'c07_l11': '[b,c]', 'c07_l12': '[a,b,c]'}
+
+
+def local_cut_set(rec, w):
+    """fixed clauses with cuts that are local to a negation, a condition-free if-then-else, once/1 or call/1; expected answers by ISO 7.8.x"""
+    text = LOCAL_CUT_PROGRAM.replace('\\\\', '\\')
+    if not arith.load_clauses(rec, w, text):
+        return
+    for name, want in sorted(LOCAL_CUT_EXPECTED.items()):
+        q = 'findall(X, %s(X), R)' % name
+        o = arith.run_goal(w, q, var='R')
+        rec.case('with-cut', ('local-cut', name))
+        items = [mkint(int(x)) if x.isdigit() else mkatom(x) for x in want.strip('[]').split(',') if x]
+        if o != ('val', mklist(items)):
+            rec.violation({'kind': 'local_cut_clause_wrong', 'clause': name}, {'program': text, 'query': q, 'expected': want, 'observed': arith.show_obs(o)[:200],
+                                                                                'jobs': [{'op': 'raw', 'query': 'use_module(library(charsio)).'}, {'op': 'load', 'module': 'user', 'text': text},
+                                                                                         {'op': 'run', 'goal': q + ' .', 'limit': 2, 'pred': 'runr'}]})
